@@ -10,7 +10,9 @@ META = {
                  "arithmetic, source ties decided on tables regenerated from /repo) + differential correspondence of the model "
                  "against the real tokenizer, the real parser's AST spans, the real CodeGenerator on real ASTs (per-pc name/line/span "
                  "of every compiled program) and located errors of planted failures under vertical/horizontal shifts, "
-                 "newline-at-every-token-gap layouts, environment configurations and API entry points",
+                 "newline-at-every-token-gap layouts, environment configurations and API entry points; grammar-drawn templates "
+                 "through the ast / stm / cga / cge / err streams; error display paths into failing writers; end-to-end theorem "
+                 "error_line_is_construct_line and C14_main with the validated-only parts as named hypotheses",
     "category": "proof",
     "text": "Kernel-checked theorems about an executable model of Tokenizer::{advance,loc,span,syntax_error}, "
             "TokenStream::{next,current_span,last_span,expand_span}, every arm of CodeGenerator::{compile_stmt,compile_expr,"
@@ -57,7 +59,32 @@ META = {
                   "remembering the start and expand_span (the span-vs-token-range classification of every real AST node checks it); "
                   "that the simple line semantics execL of the theorem equals the run-length side tables (cross-checked by the driver "
                   "on every program, per-primitive theorems cg_add_records_current_line / line_table_lookup); that the tokenizer's "
-                  "rules call the location primitives with the span of the token at hand (lex stream).",
+                  "rules call the location primitives with the span of the token at hand (lex stream). "
+                  "MOVED FROM VALIDATED TO PROVED in session 4 (the session-3 work was lost and is rebuilt here): (1) that the simple "
+                  "line semantics execL equals what the run-length side tables answer: theorem tables_answer_execL "
+                  "(MJ/Proofs/LocEndToEnd.lean) — for EVERY script of set_line / push_span / pop_span / add / add_with_span / "
+                  "location-less add calls of one generator and every pc, process_err (get_span else get_line, binary search "
+                  "included) on the tables built by the model of CodeGenerator + Instructions attaches exactly the line execL assigns "
+                  "to instruction pc, and a span only if it starts on that line (before: cross-checked by the driver per program); "
+                  "(2) the end-to-end composition error_line_is_construct_line: well-formed AST -> every compile arm "
+                  "(instr_line_in_construct) -> side tables -> process_err: the location attached to an error raised at ANY pc is a "
+                  "line within the first and last line of the construct whose arm emitted that instruction; (3) C14_statement / "
+                  "C14_main: the property as stated over the model with the remaining gap as NAMED hypotheses: h_parser_wf (the "
+                  "construct line ranges of the parser's AST nest and contain the span start lines: VALIDATED on every AST dumped from "
+                  "the real parser incl. the grammar-drawn ones; which parser site starts its span where is decided on the "
+                  "regenerated table, source_tie_parser_spans), h_root, h_one_generator (no {% block %} sub-generator inside the "
+                  "program: blocks stay VALIDATED by the cga stream, the bookkeeping per generator is the proved one), h_size. "
+                  "STILL ONLY VALIDATED: the parser grammar itself (that a parse function consumes exactly the tokens of its "
+                  "construct), the tokenizer rules' use of the location primitives, the sub-generator hand-over of blocks in the "
+                  "end-to-end theorem, Error's accessors / Display / Debug and render_debug_info's text (their arithmetic is "
+                  "proved; the display paths are exercised by the err stream in 5 forms into a String and into writers that fail "
+                  "after k bytes).  NEW STREAMS in session 4: templates and expressions drawn from the GRAMMAR of parser.rs (every "
+                  "production with its optional parts, trailing commas, empty collections, chained postfix operators, white-space "
+                  "control, line breaks between the tokens of a tag) feed ast (every span of every node a valid slice, start <= end, "
+                  "line/column as the model computes), stm, cga/cge (span start classification, wf, model code generator = real per-pc "
+                  "tables) and — rendered as they are, every second one under strict undefined — the err stream (static predicates "
+                  "and shift invariance of the whole chain); every error of the err stream is additionally formatted in its 5 forms "
+                  "into fmt::Write sinks that fail after 0, 1, k/8.., len-1 bytes (a panic there is a failing input).",
 }
 
 CFG_NAMES = {"1": "entry point Environment::render_str", "2": "entry point template_from_named_str", "3": "entry point add_template_owned",
@@ -200,7 +227,9 @@ UNANCHORED = {"expr_empty", "expr_ws_only"}
 
 V_N = {0: 0, 1: 1, 2: 2, 3: 7, 4: 300, 5: None, 6: 70000}   # 5: fill up to exactly 65535 lines, 6: beyond the quantifier
 EXPLODED_FIRST = 7   # vertical variants 7, 8, 9: a newline at every / every even / every odd token gap inside the tags
-EXPLODED_NAMES = {7: "newline at every token gap", 8: "newline at every even token gap", 9: "newline at every odd token gap"}
+EXPLODED_NAMES = {7: "newline at every token gap", 8: "newline at every even token gap", 9: "newline at every odd token gap",
+                  10: "every tag on its own line, white space trimmed"}
+TRIMMED_LAYOUT = 10   # changes the data between the tags: what the values say may differ, where errors point may not
 ENTRY_CFGS = ("1", "2", "3", "4", "5")
 
 NSHARDS = min(8, max(2, (os.cpu_count() or 4) // 2))
@@ -447,7 +476,17 @@ def check_error_static(r, case, e, depth, rec, in_quantifier):
     k = e.kind
     where = f"{k}:{(e.detail or '')[:40]}"
     if e.fmtmask:
-        r.oracle_failure(case, f"formatting the error panics (mask {e.fmtmask:05b}): {e.fmtmsg}", "format-" + panic_site(e.fmtmsg))
+        r.oracle_failure(case, f"formatting the error panics (forms plain/alternate/debug/alt-debug/debug-info: into a String {e.fmtmask & 31:05b}, "
+                         f"into a failing writer {e.fmtmask >> 5:05b}): {e.fmtmsg}", "format-" + panic_site(e.fmtmsg))
+    parent = rec["errors"][depth - 1] if 0 < depth <= len(rec["errors"]) else None
+    nested_render = parent is not None and (parent.kind in ("BadInclude", "EvalBlock") or (parent.detail or "") == "wrapped by user code")
+    if depth > 0 and not nested_render and e.name is None and e.line is None and e.rs is None:
+        # a cause that carries no location at all (e.g. the `number is not iterable` behind `cannot join value`,
+        # attached with `with_source` by a filter): the property speaks of the returned error and of every
+        # LOCATED error of its chain.  (The cause behind an engine wrapper — BadInclude, EvalBlock — or behind
+        # user code that hands through a render error WAS returned from rendering: it has to be located.)
+        r.hist["located"]["unlocated cause (allowed)"] += 1
+        return
     if e.name is None:
         r.oracle_failure(case, f"error #{depth} has no template name: {e.brief()}", "no-name:" + where)
         return
@@ -565,7 +604,8 @@ def do_err(r, q, pending, err_recs, classes):
             elif exploded:
                 # another layout of the same template: same chain of the same errors; where they point is bounded
                 # by the right-line check above (the lines of the failing operation's own tokens)
-                if rec["how"] != brec["how"] or [(x.name, x.kind, x.detail) for x in be] != [(x.name, x.kind, x.detail) for x in se]:
+                same = (lambda x: (x.name, x.kind)) if vi == TRIMMED_LAYOUT else (lambda x: (x.name, x.kind, x.detail))
+                if rec["how"] != brec["how"] or [same(x) for x in be] != [same(x) for x in se]:
                     r.oracle_failure(case, f"line breaks between the tokens of the tags change the error chain: {brec['how']} {[x.brief() for x in be]} -> "
                                      f"{rec['how']} {[x.brief() for x in se]}", "layout-changes-chain")
             elif rec["how"] != brec["how"] or len(be) != len(se):
@@ -849,7 +889,7 @@ def do_cga(r, q, pending, case, mode, layout, res, tables, fallible):
         r.count(case, False)
         return
     r.count(case, True)
-    r.hist["cga_layout"][{"o": "as written", "x0": "newline at every token gap", "x1": "at every even gap", "x2": "at every odd gap"}.get(layout, layout)] += 1
+    r.hist["cga_layout"][{"o": "as written", "x0": "newline at every token gap", "x1": "at every even gap", "x2": "at every odd gap", "x3": "every tag on its own line, trimmed", "g": "grammar-drawn"}.get(layout, layout)] += 1
     sexp, toks_s, tbls = body.split("|")
     root, _ = parse_sexp(sexp.split(" "), 0)
     toks = []
@@ -1179,7 +1219,7 @@ def run(r):
                      "limit that already forbids their frame) belong to no template construct and are not expected to be located"]
     import time
     t0 = time.time(); phases = {}
-    st = r.regen_tables(["C14_CODEGEN_ADDS", "C14_VM_FALLIBLE", "C14_VM_ROWS", "C14_LOC_WIDTHS", "C14_PARSER_SPANS", "C14_CODEGEN_ARMS"])
+    st = r.regen_tables(["C14_CODEGEN_ADDS", "C14_VM_FALLIBLE", "C14_VM_ROWS", "C14_LOC_WIDTHS", "C14_PARSER_SPANS", "C14_CODEGEN_ARMS", "C14_CODEGEN_SPAN_ARGS"])
     phases["tables"] = round(time.time() - t0, 1); t0 = time.time()
     r.lean_prove("MJ.Props.C14", "MJ/Audit/C14.lean", extra_targets=["drive_c14"])
     phases["lean"] = round(time.time() - t0, 1); t0 = time.time()
